@@ -9,10 +9,8 @@ regions of any depth.  What a real `astropy.wcs.WCS` satisfies only approximatel
 (inverse to ~1e-9 pixel) is outside these theorems (DESIGN §7): the differential run uses
 real WCS objects.
 
-Meta / visual: on the current tree `CompoundSkyRegion.__init__` discards explicit
-dictionaries (finding F2), hence the full-strength clauses are refuted here with a concrete
-witness and proved under the decidable predicate that excludes exactly that input class
-(a compound node whose dictionary is not empty).
+Meta / visual: both compound constructors honour explicit dictionaries (F2 fixed), hence the
+full-strength clauses are theorems.
 -/
 import RegionsVerif.Impl.Wcs
 import RegionsVerif.Props.C15
@@ -192,30 +190,11 @@ theorem toPixel_metas (w : Wcs Sky α) (r : SkyR Sky α) : (r.toPixel w).metas =
     simp only [SkyR.toPixel, PixR.mkCompound, PixR.metas, SkyR.metas, ih1, ih2]
   | _ => simp only [SkyR.toPixel, Wcs.scaleAngle, PixR.metas, SkyR.metas, PixR.metaD, SkyR.metaD, metaOr_some]
 
-/-- no compound node carries a non-empty `meta`. -/
-def compoundMetaEmpty : PixR α → Bool
-  | .compound _ a b m _ => decide (m = Meta.empty) && compoundMetaEmpty a && compoundMetaEmpty b
-  | _ => true
-
-def compoundVisualEmpty : PixR α → Bool
-  | .compound _ a b _ v => decide (v = Visual.empty) && compoundVisualEmpty a && compoundVisualEmpty b
-  | _ => true
-
-def skyCompoundMetaEmpty : SkyR Sky α → Bool
-  | .compound _ a b m _ => decide (m = Meta.empty) && skyCompoundMetaEmpty a && skyCompoundMetaEmpty b
-  | _ => true
-
-def skyCompoundVisualEmpty : SkyR Sky α → Bool
-  | .compound _ a b _ v => decide (v = Visual.empty) && skyCompoundVisualEmpty a && skyCompoundVisualEmpty b
-  | _ => true
-
-/-- `pixel → sky` keeps the `meta` of every simple region; of a compound only when it is empty. -/
-theorem toSky_metas_partial (w : Wcs Sky α) (r : PixR α) (h : compoundMetaEmpty r = true) :
-    (r.toSky w).metas = r.metas := by
+/-- `pixel → sky` keeps every `meta` dictionary at every node. -/
+theorem toSky_metas (w : Wcs Sky α) (r : PixR α) : (r.toSky w).metas = r.metas := by
   induction r with
   | compound op r1 r2 m v ih1 ih2 =>
-    simp only [compoundMetaEmpty, Bool.and_eq_true, decide_eq_true_eq] at h
-    simp only [PixR.toSky, SkyR.mkCompound, PixR.metas, SkyR.metas, ih1 h.1.2, ih2 h.2, h.1.1]
+    simp only [PixR.toSky, SkyR.mkCompound, PixR.metas, SkyR.metas, ih1, ih2]
   | _ => simp only [PixR.toSky, Wcs.scaleAngle, PixR.metas, SkyR.metas, PixR.metaD, SkyR.metaD, metaOr_some]
 
 /-- the non-`rotation` content of every `visual` survives `sky → pixel`. -/
@@ -235,20 +214,18 @@ theorem toPixel_visuals_rest (w : Wcs Sky α) (r : SkyR Sky α) :
     simp only [SkyR.toPixel, Wcs.scaleAngle, PixR.visuals, SkyR.visuals, PixR.visualD, SkyR.visualD,
       visualOr_some]
 
-/-- **meta after pixel → sky → pixel** (partial: no compound node with a non-empty meta). -/
-theorem meta_preserved_partial (w : Wcs Sky α) (r : PixR α) (h : compoundMetaEmpty r = true) :
+/-- **meta after pixel → sky → pixel**: every dictionary, include flag included, at every node. -/
+theorem meta_preserved (w : Wcs Sky α) (r : PixR α) :
     ((r.toSky w).toPixel w).metas = r.metas := by
-  rw [toPixel_metas, toSky_metas_partial w r h]
+  rw [toPixel_metas, toSky_metas w r]
 
 /-- **visual after pixel → sky → pixel**, including the text region's `rotation`, which is
-changed by `to_sky` and restored by `to_pixel` (partial: no compound node with a non-empty visual). -/
-theorem visual_preserved_partial (w : Wcs Sky α) (r : PixR α) (h : compoundVisualEmpty r = true) :
+changed by `to_sky` and restored by `to_pixel`. -/
+theorem visual_preserved (w : Wcs Sky α) (r : PixR α) :
     ((r.toSky w).toPixel w).visuals = r.visuals := by
   induction r with
   | compound op r1 r2 m v ih1 ih2 =>
-    simp only [compoundVisualEmpty, Bool.and_eq_true, decide_eq_true_eq] at h
-    simp only [PixR.toSky, SkyR.mkCompound, SkyR.toPixel, PixR.mkCompound, PixR.visuals, ih1 h.1.2, ih2 h.2,
-      h.1.1]
+    simp only [PixR.toSky, SkyR.mkCompound, SkyR.toPixel, PixR.mkCompound, PixR.visuals, ih1, ih2]
   | text c t m v =>
     cases v with
     | mk rot rest =>
@@ -258,11 +235,9 @@ theorem visual_preserved_partial (w : Wcs Sky α) (r : PixR α) (h : compoundVis
         simp only [PixR.toSky, SkyR.toPixel, PixR.visuals, PixR.visualD, visualOr_some, sub_add_cancel]
   | _ => simp only [PixR.toSky, SkyR.toPixel, Wcs.scaleAngle, PixR.visuals, PixR.visualD, visualOr_some]
 
-/-- the whole region, dictionaries included, comes back **equal** (partial: compounds with empty
-dictionaries; simple regions, annuli, points, lines, text unconditionally). -/
-theorem roundtrip_pix_sky_pix_exact_partial (w : Wcs Sky α) (hp : ∀ p : Pt α, w.toPix (w.toSky p) = p)
-    (hr : Regular w) (r : PixR α) (hm : compoundMetaEmpty r = true) (hv : compoundVisualEmpty r = true) :
-    (r.toSky w).toPixel w = r := by
+/-- the whole region, dictionaries included, comes back **equal**. -/
+theorem roundtrip_pix_sky_pix_exact (w : Wcs Sky α) (hp : ∀ p : Pt α, w.toPix (w.toSky p) = p)
+    (hr : Regular w) (r : PixR α) : (r.toSky w).toPixel w = r := by
   induction r with
   | circle c r m v =>
     simp only [PixR.toSky, SkyR.toPixel, Wcs.scaleAngle, hp, metaOr_some, visualOr_some,
@@ -297,14 +272,11 @@ theorem roundtrip_pix_sky_pix_exact_partial (w : Wcs Sky α) (hp : ∀ p : Pt α
       | none => simp only [PixR.toSky, SkyR.toPixel, hp, metaOr_some, visualOr_some]
       | some x => simp only [PixR.toSky, SkyR.toPixel, hp, metaOr_some, visualOr_some, sub_add_cancel]
   | compound op r1 r2 m v ih1 ih2 =>
-    simp only [compoundMetaEmpty, compoundVisualEmpty, Bool.and_eq_true, decide_eq_true_eq] at hm hv
-    simp only [PixR.toSky, SkyR.mkCompound, SkyR.toPixel, PixR.mkCompound, ih1 hm.1.2 hv.1.2, ih2 hm.2 hv.2,
-      hm.1.1, hv.1.1]
+    simp only [PixR.toSky, SkyR.mkCompound, SkyR.toPixel, PixR.mkCompound, ih1, ih2]
 
-/-- sky → pixel → sky, dictionaries included (partial likewise). -/
-theorem roundtrip_sky_pix_sky_exact_partial (w : Wcs Sky α) (hs : ∀ q : Sky, w.toSky (w.toPix q) = q)
-    (hr : Regular w) (r : SkyR Sky α) (hm : skyCompoundMetaEmpty r = true)
-    (hv : skyCompoundVisualEmpty r = true) : (r.toPixel w).toSky w = r := by
+/-- sky → pixel → sky, dictionaries included. -/
+theorem roundtrip_sky_pix_sky_exact (w : Wcs Sky α) (hs : ∀ q : Sky, w.toSky (w.toPix q) = q)
+    (hr : Regular w) (r : SkyR Sky α) : (r.toPixel w).toSky w = r := by
   induction r with
   | circle c r m v =>
     simp only [PixR.toSky, SkyR.toPixel, Wcs.scaleAngle, hs, metaOr_some, visualOr_some,
@@ -339,9 +311,21 @@ theorem roundtrip_sky_pix_sky_exact_partial (w : Wcs Sky α) (hs : ∀ q : Sky, 
       | none => simp only [PixR.toSky, SkyR.toPixel, hs, metaOr_some, visualOr_some]
       | some x => simp only [PixR.toSky, SkyR.toPixel, hs, metaOr_some, visualOr_some, add_sub_cancel_right]
   | compound op r1 r2 m v ih1 ih2 =>
-    simp only [skyCompoundMetaEmpty, skyCompoundVisualEmpty, Bool.and_eq_true, decide_eq_true_eq] at hm hv
-    simp only [PixR.toSky, SkyR.mkCompound, SkyR.toPixel, PixR.mkCompound, ih1 hm.1.2 hv.1.2, ih2 hm.2 hv.2,
-      hm.1.1, hv.1.1]
+    simp only [PixR.toSky, SkyR.mkCompound, SkyR.toPixel, PixR.mkCompound, ih1, ih2]
+
+/-- in particular the include flag of every node survives pixel → sky → pixel. -/
+theorem include_preserved (w : Wcs Sky α) (r : PixR α) :
+    ((r.toSky w).toPixel w).metas.map (·.inc) = r.metas.map (·.inc) := by rw [meta_preserved]
+
+/-- **meta after sky → pixel → sky**. -/
+theorem sky_meta_preserved (w : Wcs Sky α) (r : SkyR Sky α) : ((r.toPixel w).toSky w).metas = r.metas := by
+  rw [toSky_metas, toPixel_metas]
+
+/-- **visual after sky → pixel → sky** (the text `rotation` is restored because the helper is asked at
+the same sky position both times — here the WCS hypothesis is needed). -/
+theorem sky_visual_preserved (w : Wcs Sky α) (hs : ∀ q : Sky, w.toSky (w.toPix q) = q) (hr : Regular w)
+    (r : SkyR Sky α) : ((r.toPixel w).toSky w).visuals = r.visuals := by
+  rw [roundtrip_sky_pix_sky_exact w hs hr r]
 
 /-! ### membership -/
 
@@ -364,15 +348,14 @@ theorem sky_compound_contains (w : Wcs Sky α) (op : BoolOp) (a b : SkyR Sky α)
   simp only [SkyR.contains, sky_contains_eq]
 
 /-- membership survives pixel → sky: the sky image of a pixel region contains the sky image of a
-position exactly when the region contained the position (partial: as for the round trip). -/
-theorem pix_contains_via_sky_partial (w : Wcs Sky α) (hp : ∀ p : Pt α, w.toPix (w.toSky p) = p)
-    (hr : Regular w) (r : PixR α) (hm : compoundMetaEmpty r = true) (hv : compoundVisualEmpty r = true)
-    (p : Pt α) : (r.toSky w).contains w (w.toSky p) = r.contains p := by
-  rw [sky_contains_eq, roundtrip_pix_sky_pix_exact_partial w hp hr r hm hv, hp]
+position exactly when the region contained the position. -/
+theorem pix_contains_via_sky (w : Wcs Sky α) (hp : ∀ p : Pt α, w.toPix (w.toSky p) = p)
+    (hr : Regular w) (r : PixR α) (p : Pt α) : (r.toSky w).contains w (w.toSky p) = r.contains p := by
+  rw [sky_contains_eq, roundtrip_pix_sky_pix_exact w hp hr r, hp]
 
 end field
 
-/-! ### the full-strength meta / visual clauses on the current tree (finding F2) -/
+/-! ### the full-strength meta / visual clauses (F2 fixed: they hold) -/
 
 /-- full strength: every `meta` dictionary (include flag included) survives pixel → sky → pixel. -/
 def meta_preserved_full : Prop :=
@@ -394,6 +377,24 @@ def pix_contains_via_sky_full : Prop :=
     (∀ p : Pt α, w.toPix (w.toSky p) = p) → Regular w → ∀ (r : PixR α) (p : Pt α),
       (r.toSky w).contains w (w.toSky p) = r.contains p
 
+theorem meta_preserved_full_holds : meta_preserved_full := fun _ _ _ _ _ w r => meta_preserved w r
+
+theorem visual_preserved_full_holds : visual_preserved_full := fun _ _ _ _ _ w r => visual_preserved w r
+
+theorem sky_meta_preserved_full_holds : sky_meta_preserved_full := fun _ _ _ _ _ w r =>
+  sky_meta_preserved w r
+
+theorem pix_contains_via_sky_full_holds : pix_contains_via_sky_full :=
+  fun _ _ _ _ _ w hp hr r p => pix_contains_via_sky w hp hr r p
+
+/-- the former witness of F2, `CompoundPixelRegion(circle, circle, and_, meta={'include': False,
+'label': 'zz'}, visual={'color': 'blue'})`, now round-trips. -/
+def witnessMeta : Meta := ⟨.pyFalse, [("label", "zz")]⟩
+def witnessVisual : Visual ℚ := ⟨none, [("color", "blue")]⟩
+def witness : PixR ℚ :=
+  PixR.mkCompound (.circle ⟨0, 0⟩ 2 Meta.empty Visual.empty) (.circle ⟨1, 0⟩ 2 Meta.empty Visual.empty) .and
+    (some witnessMeta) (some witnessVisual)
+
 /-- the identity WCS on `ℚ²`: scale 1 arcsec / pixel, north = +y. -/
 def idWcs : Wcs (Pt ℚ) ℚ := ⟨id, id, fun _ => ⟨1, ⟨0, 1⟩, 90⟩⟩
 
@@ -402,47 +403,8 @@ theorem idWcs_invertible : Invertible idWcs := ⟨fun _ => rfl, fun _ => rfl⟩
 theorem idWcs_regular : Regular idWcs :=
   ⟨fun _ => by simp [idWcs], fun _ => by simp [idWcs, Dir.IsUnit]⟩
 
-/-- the witness: `CompoundPixelRegion(circle, circle, and_, meta={'include': False, 'label': 'zz'},
-visual={'color': 'blue'})`. -/
-def witnessMeta : Meta := ⟨.pyFalse, [("label", "zz")]⟩
-def witnessVisual : Visual ℚ := ⟨none, [("color", "blue")]⟩
-def witness : PixR ℚ :=
-  PixR.mkCompound (.circle ⟨0, 0⟩ 2 Meta.empty Visual.empty) (.circle ⟨1, 0⟩ 2 Meta.empty Visual.empty) .and
-    (some witnessMeta) (some witnessVisual)
-
-theorem meta_preserved_full_refuted : ¬ meta_preserved_full := by
-  intro h
-  have := h (Pt ℚ) ℚ idWcs witness
-  simp [witness, witnessMeta, PixR.mkCompound, PixR.toSky, SkyR.mkCompound, SkyR.toPixel, PixR.metas,
-    Meta.empty] at this
-
-theorem visual_preserved_full_refuted : ¬ visual_preserved_full := by
-  intro h
-  have := h (Pt ℚ) ℚ idWcs witness
-  simp [witness, witnessVisual, PixR.mkCompound, PixR.toSky, SkyR.mkCompound, SkyR.toPixel, PixR.visuals,
-    Visual.empty] at this
-
-/-- sky witness: `CompoundSkyRegion(c1, c2, and_)` where `c1.meta = {'include': False, 'label': 'zz'}`
-(the compound shares `c1.meta`; `to_pixel` copies it; `to_sky` then discards it). -/
-def skyWitness : SkyR (Pt ℚ) ℚ :=
-  SkyR.mkCompound (.circle ⟨0, 0⟩ 2 witnessMeta Visual.empty) (.circle ⟨1, 0⟩ 2 Meta.empty Visual.empty) .and
-    none none
-
-theorem sky_meta_preserved_full_refuted : ¬ sky_meta_preserved_full := by
-  intro h
-  have := h (Pt ℚ) ℚ idWcs skyWitness
-  simp [skyWitness, witnessMeta, PixR.mkCompound, PixR.toSky, SkyR.mkCompound, SkyR.toPixel, SkyR.metas,
-    SkyR.metaD, Meta.empty] at this
-
-/-- the lost include flag changes the answer: the excluded compound does not contain its centre,
-its sky image does. -/
-theorem pix_contains_via_sky_full_refuted : ¬ pix_contains_via_sky_full := by
-  intro h
-  have := h (Pt ℚ) ℚ idWcs idWcs_invertible.pix idWcs_regular witness ⟨0, 0⟩
-  revert this
-  simp [witness, witnessMeta, PixR.mkCompound, PixR.toSky, SkyR.mkCompound, SkyR.toPixel, SkyR.contains,
-    PixR.contains, PixR.toPReg, PReg.contains, Wcs.scaleAngle, idWcs, metaOr_some, visualOr_some,
-    Meta.empty, withInclude, Include.truthy, BoolOp.apply, Circle.inRaw, sep2]
+example : ((witness.toSky idWcs).toPixel idWcs).metas = [witnessMeta, Meta.empty, Meta.empty] := by
+  rw [meta_preserved]; rfl
 
 /-! ### non-vacuity -/
 
@@ -458,17 +420,5 @@ example : Invertible rotWcs :=
 
 example : Regular rotWcs :=
   ⟨fun _ => by simp [rotWcs], fun _ => by simp only [rotWcs, Dir.IsUnit]; norm_num⟩
-
--- the partial predicates are satisfiable by a genuine compound (with non-trivial leaves)
-example : compoundMetaEmpty (PixR.mkCompound (.circle ⟨0, 0⟩ 2 witnessMeta witnessVisual)
-    (.point ⟨1, 0⟩ Meta.empty Visual.empty) .xor (some Meta.empty) (some Visual.empty)) = true := by
-  decide
-
-example : compoundVisualEmpty (PixR.mkCompound (.circle ⟨0, 0⟩ 2 witnessMeta witnessVisual)
-    (.point ⟨1, 0⟩ Meta.empty Visual.empty) .xor (some Meta.empty) (some Visual.empty)) = true := by
-  decide
-
--- and a simple region with a non-trivial meta satisfies them trivially
-example : compoundMetaEmpty (PixR.circle (⟨0, 0⟩ : Pt ℚ) 2 witnessMeta witnessVisual) = true := rfl
 
 end RegionsVerif.Props.C06
